@@ -1063,6 +1063,7 @@ func (c *Conn) handleBdat(arg string) {
 
 	chunk := &io.LimitedReader{R: c.text.R, N: int64(size)}
 	_, err = io.Copy(bdatWriter{c, pipe}, chunk)
+	verifYield("conn.woken")
 	if err == nil && chunk.N > 0 {
 		// io.Copy does not report EOF: the connection ended inside the
 		// chunk, the message is incomplete.
@@ -1121,6 +1122,7 @@ func (c *Conn) handleBdat(arg string) {
 		pipe.Close()
 
 		err := <-c.dataResult
+		verifYield("conn.woken")
 
 		if c.server.LMTP {
 			c.bdatStatus.fillRemaining(err)
